@@ -902,9 +902,9 @@ def compare_world(ctx, world, res, outs, metas):
             seen, exp = set(), []
             if not (req["check"] and not req["topological"]):
                 exp.append([r["root"]["name"], r["root"]["version"]])
-                for x in impl["ok"]:
-                    if x[0] not in seen:
-                        seen.add(x[0])
+                for x in impl["ok"]:                # a product is printed once (keyed by name and version)
+                    if (x[0], x[1]) not in seen:
+                        seen.add((x[0], x[1]))
                         exp.append([x[0], str(x[1])])
             if r["cli"]["lines"] != exp or r["cli"]["status"] not in (0, None):
                 ctx.disagree(case, exp, r["cli"], where="eups list --dependencies --raw against the API listing")
